@@ -1063,6 +1063,13 @@ func (r *Raft) sendAppendEntries(id string, address string, numResponses *int) {
 		return
 	}
 
+	// Ignore the response if the request was sent in a previous term. This node may have lost
+	// leadership and been elected again since, in which case the response says nothing about
+	// what the follower holds of the current log.
+	if r.currentTerm != request.Term {
+		return
+	}
+
 	// If the majority of cluster acknowledges the request, this node is a legitimate leader.
 	// Try to apply pending read-only operations. Only voting members count toward the majority.
 	if numResponses != nil && r.isVoter(id) {
